@@ -942,7 +942,8 @@ class Evaluator:
     def ev_assignop(self, n, env, depth):
         cur = self.ev(n["l"], env, depth)
         r = self.ev(n["r"], env, depth)
-        fake = {"k": "binary", "op": n["op"], "l": {"k": "__val", "v": cur}, "r": {"k": "__val", "v": r}}
+        op = n["op"][:-6] if n["op"].endswith("Assign") else n["op"]      # `x &= y` is `x = x & y`
+        fake = {"k": "binary", "op": op, "l": {"k": "__val", "v": cur}, "r": {"k": "__val", "v": r}}
         self.assign(n["l"], self.ev_binary(fake, env, depth), env, depth)
         return UNIT
 
@@ -1340,6 +1341,23 @@ class Evaluator:
                 m = re.match(r"^\[.*;\s*(\d+)(?:_?usize)?\]$", t_.strip())
                 if m:
                     return V("Ok", (list(a0),)) if len(a0) == int(m.group(1)) else V("Err", (a0,))
+        # futures::join! / try_join!: each future is evaluated eagerly (no interleaving), the poll closure then finds all of them done
+        if base.endswith("maybe_done::maybe_done") and len(args) == 1:
+            return St("futures_util::future::maybe_done::MaybeDone", {"out": self.run_future(a0, depth)})
+        if isinstance(a0, St) and a0.ty.endswith("maybe_done::MaybeDone"):
+            if name == "poll":
+                return V("Ready", (UNIT,))
+            if name == "take_output":
+                return V("Some", (a0.f["out"],))
+        if base.endswith("task::poll::Poll::is_ready") and isinstance(a0, V):
+            return a0.name == "Ready"
+        if base.endswith("task::poll::Poll::is_pending") and isinstance(a0, V):
+            return a0.name == "Pending"
+        if base.endswith("poll_fn::poll_fn") and len(args) == 1 and isinstance(a0, Clo):
+            r = self.apply(a0, [Sym(("ctx",))], depth, node)
+            if isinstance(r, V) and r.name == "Ready" and r.fields:
+                return r.fields[0]
+            raise Abort("poll_fn whose closure is not ready at once")
         if re.search(r"cmp::Ordering::(then_with|then)$", base) and len(args) == 2:
             # lexicographic composition: the second comparison counts only when the first is Equal
             if self.compare("Eq", a0, Ctor("Equal")) if isinstance(a0, Sym) else (isinstance(a0, (V, Ctor)) and getattr(a0, "name", None) == "Equal"):
